@@ -88,6 +88,9 @@ type Verifier struct {
 }
 
 func (v *Verifier) findFunc(key string) *ssa.Function {
+	if i := strings.Index(key, "#"); i >= 0 {
+		key = key[:i] // contract variant of the same function
+	}
 	dot := strings.Index(key, ".")
 	pkgName, rest := key[:dot], key[dot+1:]
 	p := v.pkgs[pkgName]
@@ -166,6 +169,13 @@ func (v *Verifier) VerifyFunc(key string, c *Contract, class map[string]string) 
 	for i := 0; tps != nil && i < tps.Len(); i++ {
 		tp := tps.At(i)
 		if cn, ok := class[tp.Obj().Name()]; ok {
+			if cn == "iface" {
+				env[tp] = types.NewInterfaceType(nil, nil)
+				continue
+			}
+			if cn == "abstract" {
+				continue
+			}
 			bt, ok := basicByName[cn]
 			if !ok {
 				run.Err = fmt.Errorf("unknown class %s", cn)
@@ -280,7 +290,7 @@ func (v *Verifier) VerifyFunc(key string, c *Contract, class map[string]string) 
 			e.obligation(st, "ensures", lab, g, en.Src)
 		}
 		e.checkFrame(st, "assigns")
-		if len(retPCs) < 6 {
+		if len(retPCs) < 48 {
 			retPCs = append(retPCs, append([]Term(nil), st.pc...))
 		}
 	})
